@@ -173,7 +173,9 @@ impl Exec {
             };
             let i = runnable[pick];
             // busy-loop detection: the same task again and again, nothing moves
-            if i == streak_task && self.progress.get() == streak_progress && runnable.len() == 1 {
+            // (only connection tasks: application/peer tasks of the harness yield on purpose)
+            let is_conn = matches!(self.tasks[i].group, Group::ClientConn | Group::ServerConn);
+            if is_conn && i == streak_task && self.progress.get() == streak_progress && runnable.len() == 1 {
                 streak += 1;
                 if streak > self.busy_limit {
                     return RunEnd::BusyLoop(self.tasks[i].name.clone());
@@ -401,6 +403,18 @@ impl Pipe {
             }
             CutKind::WriteErr | CutKind::WriteZero => {}
         }
+    }
+    /// Apply the cut right now, wherever the byte count stands.
+    pub fn force_cut(&mut self, kind: CutKind) {
+        self.cut_at = Some((self.written.len(), kind));
+        self.apply_cut(kind);
+        if matches!(kind, CutKind::WriteErr | CutKind::WriteZero) {
+            // a write error is only seen by a writer; make the direction dead for the reader too so
+            // that the connection notices even if it has nothing to write
+            self.writer_closed = true;
+        }
+        self.wake_reader();
+        self.wake_writer();
     }
     /// Raw access for RefPeer: take everything available.
     pub fn take_bytes(&mut self) -> Vec<u8> {
